@@ -104,6 +104,8 @@ def expect (model, req):
   """
   n = req["name"]; d = req["fields"]
   if n == "malformed":
+    if d["of"] == "unknown_type":
+      return ("error", [(1, 1)])               # BAD_REQUEST / BAD_TYPE
     return ("error", [(1, 6)])                 # BAD_REQUEST / BAD_LEN
   if n == "echo_request":
     return ("reply", "echo_reply",
@@ -238,7 +240,17 @@ def gen_malformed (rng, xid):
   behind it answered as usual.
   """
   k = rng.choice(["set_config", "port_mod", "stats_request", "flow_mod",
-                  "queue_get_config_request"])
+                  "queue_get_config_request", "header_only", "unknown_type"])
+  if k == "header_only":
+    # nothing but the header of a message type that needs a body
+    t = rng.choice([9, 13, 14, 15, 16, 20, 4])
+    return dict(name="malformed", fields=dict(
+      xid=xid, of="header_only_type_%d" % t, raw=struct.pack("!BBHL", 1, t, 8, xid)))
+  if k == "unknown_type":
+    t = rng.choice([22, 23, 24, 100, 255])
+    body = bytes(rng.getrandbits(8) for _ in range(rng.choice([0, 0, 4, 16])))
+    return dict(name="malformed", fields=dict(
+      xid=xid, of="unknown_type", raw=struct.pack("!BBHL", 1, t, 8 + len(body), xid) + body))
   if k == "set_config":
     good = ofwire.enc_message(k, dict(xid=xid, flags=0, miss_send_len=128))
     raw = good[:10]
